@@ -283,9 +283,10 @@ class Project:
         # Special case: If a file contains only copyright, apply the
         # REUSE.toml's licensing if it exists, and vice versa.
         elif file_result.contains_copyright_xor_licensing():
-            if global_results[PrecedenceType.CLOSEST]:
-                # There should only by a single CLOSEST result in the list.
-                closest = global_results[PrecedenceType.CLOSEST][0]
+            # Copyright and licensing may come from different CLOSEST results
+            # (the nearest REUSE.toml that provides each), so consider all of
+            # them.
+            for closest in global_results[PrecedenceType.CLOSEST]:
                 if file_result.copyright_lines:
                     result.append(
                         closest.copy(
